@@ -18,6 +18,7 @@ RULE = (
     "deactivated node / every non-setup node of a deactivated nested DAG is absent). non-trivial = the program has a "
     "flag that is an indexed / unpacked value or sits on a nested DAG call, and some flagged site was actually "
     "skipped in one of the runs."
+    " Round 9 additions: falsy-but-indexable flag containers (prog.Hollow); three levels of nesting with a parameter handed back."
 )
 ASSUMPTIONS = [
     "a flagged call's result is never indexed / unpacked (None[0] raises in plain Python too) - by construction",
